@@ -116,7 +116,7 @@ fn wait_with_timeout(child: &mut std::process::Child, limit: Duration) -> ChildE
     }
 }
 
-fn signal_name(sig: i32) -> String {
+pub fn signal_name(sig: i32) -> String {
     match sig {
         6 => "SIGABRT".into(),
         9 => "SIGKILL".into(),
@@ -181,7 +181,7 @@ pub fn replay_in_child(path: &Path, env: &[(String, String)], limit: Duration) -
 
 /// From the stderr of an aborted process: the innermost noodles function on the backtrace (frame
 /// name without the hash) and the first diagnostic line.
-fn abort_site(stderr: &str) -> (Option<String>, String) {
+pub fn abort_site(stderr: &str) -> (Option<String>, String) {
     let lines: Vec<&str> = stderr.lines().collect();
     let first = lines.iter().find(|l| l.contains("memory allocation") || l.contains("overflowed its stack") || l.contains("panicked") || l.contains("fatal runtime error")).map(|s| s.trim().to_string()).unwrap_or_default();
     for w in lines.windows(2) {
@@ -255,7 +255,10 @@ pub fn run_property(prop: &Property, tier: Tier) -> i32 {
             continue;
         };
         regress_replayed += 1;
-        let o = replay_in_child(&path, &sub_env(&rf.sub), sub_budget(&rf.sub));
+        let narrowed = rf.case.get("only").map(|v| v.is_number()).unwrap_or(false);
+        let budget = if narrowed { sub_budget(&rf.sub).min(Duration::from_secs(40)) } else { sub_budget(&rf.sub) };
+        let mut o = replay_in_child(&path, &sub_env(&rf.sub), budget);
+        o.fails = qualify_fails(std::mem::take(&mut o.fails), &rf.sub);
         if let Some(e) = o.error {
             inconclusive.push(format!("regression replay {}: {}", path.display(), e));
         } else if !o.pass {
@@ -266,15 +269,38 @@ pub fn run_property(prop: &Property, tier: Tier) -> i32 {
         }
     }
 
-    // Phase B: known findings — replay each, report those that still reproduce
-    for k in &known {
+    // Phase B: known findings — replay each (in parallel), report those that still reproduce
+    let known_outcomes: Vec<Option<ReplayOutcome>> = {
+        let slots: Vec<Mutex<Option<ReplayOutcome>>> = known.iter().map(|_| Mutex::new(None)).collect();
+        let next = std::sync::atomic::AtomicUsize::new(0);
+        std::thread::scope(|scope| {
+            for _ in 0..prop.max_parallel.clamp(1, 16) {
+                scope.spawn(|| {
+                    loop {
+                        let i = next.fetch_add(1, std::sync::atomic::Ordering::SeqCst);
+                        let Some(k) = known.get(i) else { break };
+                        let Some(rp) = &k.replay else { continue };
+                        let path = root.join(rp);
+                        let rf_known = std::fs::read_to_string(&path).ok().and_then(|t| serde_json::from_str::<ReplayFile>(&t).ok());
+                        let sub_name = rf_known.as_ref().map(|r| r.sub.clone()).unwrap_or_default();
+                        let narrowed = rf_known.as_ref().and_then(|r| r.case.get("only").map(|v| v.is_number())).unwrap_or(false);
+                        let budget = if narrowed { sub_budget(&sub_name).min(Duration::from_secs(40)) } else { sub_budget(&sub_name) };
+                        let mut o = replay_in_child(&path, &sub_env(&sub_name), budget);
+                        o.fails = qualify_fails(std::mem::take(&mut o.fails), &sub_name);
+                        *slots[i].lock().unwrap() = Some(o);
+                    }
+                });
+            }
+        });
+        slots.into_iter().map(|m| m.into_inner().unwrap()).collect()
+    };
+    for (ki, k) in known.iter().enumerate() {
         let Some(rp) = &k.replay else {
             println!("KNOWN-FINDING: property={} {} [sig={}] (no replay file; matched by signature during search)", prop.id, k.desc, k.sig);
             continue;
         };
         let path = root.join(rp);
-        let sub_name = std::fs::read_to_string(&path).ok().and_then(|t| serde_json::from_str::<ReplayFile>(&t).ok()).map(|r| r.sub).unwrap_or_default();
-        let o = replay_in_child(&path, &sub_env(&sub_name), sub_budget(&sub_name));
+        let Some(o) = known_outcomes[ki].clone() else { continue };
         if let Some(e) = &o.error {
             inconclusive.push(format!("known-finding replay {}: {}", path.display(), e));
             continue;
@@ -375,11 +401,15 @@ pub fn run_property(prop: &Property, tier: Tier) -> i32 {
                         let end = wait_with_timeout(&mut child, limit);
                         let mut cur_case = std::fs::read(&cur).ok().and_then(|b| serde_json::from_slice::<serde_json::Value>(&b).ok());
                         // a check that runs a family of inner evaluations notes which one was running
+                        let mut narrowed = false;
                         if let (Some(serde_json::Value::Object(m)), Some(h)) = (cur_case.as_mut(), std::fs::read_to_string(cur.with_extension("hint")).ok().and_then(|t| t.trim().parse::<u64>().ok())) {
                             if m.contains_key("only") {
                                 m.insert("only".into(), serde_json::json!(h));
+                                narrowed = true;
                             }
                         }
+                        // a single inner evaluation needs only a fraction of the whole case's budget
+                        let rerun_budget = if narrowed { (s.opts().case_budget_s * 10).min(40) } else { s.opts().case_budget_s * 10 };
                         let why = match end {
                             ChildEnd::Exited(0) => match std::fs::read(&out).ok().and_then(|b| serde_json::from_slice::<ShardResult>(&b).ok()) {
                                 Some(r) => {
@@ -402,7 +432,7 @@ pub fn run_property(prop: &Property, tier: Tier) -> i32 {
                                 let tmp_replay = base_tmp.join(format!("{}-{}.attr.json", s.name(), job.shard));
                                 let rf = ReplayFile { property: prop_ref.id.into(), sub: s.name().into(), seed, tier: tier.name().into(), case: case.clone(), fails: vec![] };
                                 let _ = std::fs::write(&tmp_replay, serde_json::to_vec(&rf).unwrap());
-                                let o = replay_in_child(&tmp_replay, &s.opts().env, Duration::from_secs(s.opts().case_budget_s * 10));
+                                let o = replay_in_child(&tmp_replay, &s.opts().env, Duration::from_secs(rerun_budget));
                                 let fails = qualify_fails(o.fails.clone(), s.name());
                                 let hang_ok = !fails.iter().any(|f| f.sig.starts_with("hang")) || s.opts().hang_is_violation;
                                 if o.error.is_none() && !o.pass && !fails.is_empty() && hang_ok && fails.iter().all(|f| known_ref.contains(&f.sig)) {
@@ -501,7 +531,9 @@ pub fn run_property(prop: &Property, tier: Tier) -> i32 {
                 let tmp_replay = base_tmp.join(format!("{}-{}.attr.json", s.name(), sh));
                 let rf = ReplayFile { property: prop.id.into(), sub: s.name().into(), seed, tier: tier.name().into(), case: case.clone(), fails: vec![] };
                 let _ = std::fs::write(&tmp_replay, serde_json::to_vec(&rf).unwrap());
-                let o = replay_in_child(&tmp_replay, &s.opts().env, Duration::from_secs(s.opts().case_budget_s * 10));
+                let narrowed = case.get("only").map(|v| v.is_number()).unwrap_or(false);
+                let budget = if narrowed { (s.opts().case_budget_s * 10).min(40) } else { s.opts().case_budget_s * 10 };
+                let o = replay_in_child(&tmp_replay, &s.opts().env, Duration::from_secs(budget));
                 if o.pass || o.error.is_some() {
                     inconclusive.push(format!("sub={} shard={}: {} (did not reproduce alone: {:?})", s.name(), sh, why, o.error));
                     continue;
